@@ -91,6 +91,17 @@ pub fn materialize(d: &Dims) -> Option<Case> {
         plan.body = b"fa=1&fb=x+y".to_vec();
         plan.body_params = Some(vec![(b"fa".to_vec(), b"1".to_vec()), (b"fb".to_vec(), b"x y".to_vec())]);
     }
+    if d.token == 2 {
+        // no session token; a validity period as presigned URLs carry it (a signed parameter / a signed header): it
+        // neither widens nor narrows the freshness window
+        match carrier {
+            Carrier::Query => plan.url_params.push((b"X-Amz-Expires".to_vec(), b"86400".to_vec())),
+            Carrier::Header => {
+                plan.headers.push(("X-Amz-Expires".into(), b"86400".to_vec()));
+                plan.signed.push("x-amz-expires".into());
+            }
+        }
+    }
     if d.token == 1 {
         plan.token = Some("SESSION/token+1=".into());
         if carrier == Carrier::Header {
@@ -180,7 +191,7 @@ pub fn materialize(d: &Dims) -> Option<Case> {
         4 => plan.wire_path = Some("*".into()),
         _ => {}
     }
-    plan.url_params = vec![(b"k".to_vec(), b"v".to_vec())];
+    plan.url_params.insert(0, (b"k".to_vec(), b"v".to_vec()));
     match d.query {
         1 => plan.wire_query = Some("k=v&bad=%zz".into()),
         2 => plan.wire_query = Some("k=v&bad=%".into()),
